@@ -29,6 +29,7 @@ use vstd::prelude::*;
 //@@default-rule X6.world s/\.wake_join_handles\(\)/.wake_join_handles(Tracked(w))/
 //@@default-rule X6.world s/\.is_aborted\(\)/.is_aborted(Tracked(w))/
 //@@default-rule X6.world s/\.try_write\(\)/.try_write(Tracked(w))/
+//@@default-rule X7.deref-TaskId s/\*task_id\b/task_id.0/
 
 verus! {
 
@@ -463,7 +464,7 @@ impl QueuingExecutor {
             r is Suspended ==> final(self).slots().dom() =~= old(self).slots().dom() && final(self).slots()[task_id.0 as usize] is Some, // [C01+C13/executor-run_task/a-pending-task-is-put-back-in-its-own-slot]
             forall|k: usize| #![auto] k != task_id.0 as usize && old(self).slots().dom().contains(k) ==> final(self).slots().dom().contains(k) && final(self).slots()[k] == old(self).slots()[k], // [C01+C13/executor-run_task/no-other-task-touched]
             core_havoc(*old(w), *final(w)), // [C01+C03/executor-run_task/emitted-events-and-effects-only-appended]
-//@rule X4.lock-erasure 3 s/self\s*\.tasks\s*\.lock\(\)\s*\.(?:expect\("[^"]*"\)|unwrap\(\))/(&mut self.tasks.inner)/
+//@rule X4.lock-erasure * s/self\s*\.tasks\s*\.lock\(\)\s*\.(?:expect\("[^"]*"\)|unwrap\(\))/(&mut self.tasks.inner)/
 //@rule X4.guard-drop * s#\bdrop\((\w+)\);#{ } /* drop(\1): after X4 the guard is a plain exclusive borrow whose scope ends here */#
 //@rule X7.deref-TaskId * s/\*task_id\b/task_id.0/
 //@rule X6.world * s/\.poll\(/.poll(Tracked(w), /
@@ -483,7 +484,7 @@ impl QueuingExecutor {
             final(self).idle(),
             final(w).spawn == 0 && final(w).ready == 0, // [C01/run_all/no-runnable-work-left-behind]
             core_havoc(*old(w), *final(w)), // [C01+C03/run_all/emitted-events-and-effects-only-appended]
-//@rule X4.lock-erasure 1 s/self\s*\.tasks\s*\.lock\(\)\s*\.(?:expect\("[^"]*"\)|unwrap\(\))/(&mut self.tasks.inner)/
+//@rule X4.lock-erasure * s/self\s*\.tasks\s*\.lock\(\)\s*\.(?:expect\("[^"]*"\)|unwrap\(\))/(&mut self.tasks.inner)/
 //@rule X6.world * s/\.try_recv\(\)/.try_recv(Tracked(w))/
 //@rule X6.world * s/self\.run_task\(/self.run_task(Tracked(w), /
 //@rule X6.world * s/\.send\(/.send(Tracked(w), /
@@ -1736,7 +1737,7 @@ pub mod command_m {
             ensures
                 final(self).wf(),
                 no_finished_task_held(*final(self), *final(w)), // [C13/run_until_settled/a-finished-or-cancelled-task-is-removed-and-dropped]
-                joiners_notified(*final(w)), // [C01+C07/run_until_settled/whoever-awaits-a-finished-or-cancelled-task-has-been-woken]
+                joiners_notified(*final(w)), // [C01+C06+C07+C13/run_until_settled/whoever-awaits-a-finished-or-cancelled-task-has-been-woken]
                 old(w).c_aborted ==> final(self).tasks@ == Map::<usize, Task>::empty() && *final(w) == *old(w), // [C06+C13/run_until_settled/an-aborted-command-drops-all-its-tasks-polls-none-and-emits-nothing-more]
                 !old(w).c_aborted ==> discarded_only_finished(old(self).tasks@, final(self).tasks@, *final(w)), // [C07/run_until_settled/only-finished-or-cancelled-tasks-are-discarded]
                 !old(w).c_aborted ==> final(w).c_spawn == 0 && final(w).c_ready == 0, // [C01/run_until_settled/no-runnable-work-left-behind]
@@ -1769,7 +1770,7 @@ pub mod command_m {
                     invariant
                         self.wf(),
                         no_finished_task_held(*self, *w), // [C13/run_until_settled/inner-loop/a-task-reported-finished-or-cancelled-is-removed-before-the-next-one-runs]
-                        joiners_notified(*w), // [C01+C07/run_until_settled/inner-loop/join-handles-of-a-finished-or-cancelled-task-are-woken-before-the-next-task-runs]
+                        joiners_notified(*w), // [C01+C06+C07+C13/run_until_settled/inner-loop/join-handles-of-a-finished-or-cancelled-task-are-woken-before-the-next-task-runs]
                         discarded_only_finished(old(self).tasks@, self.tasks@, *w), // [C07/run_until_settled/inner-loop/a-task-is-removed-only-after-being-reported-finished-or-cancelled]
                         old(w).finished.subset_of(w.finished),
                         cmd_outputs_appended(*old(w), *w),
